@@ -399,6 +399,24 @@ func (fl *Flow) FactsAt(l Loc) []Fact {
 	return out
 }
 
+// CondsAt lists the unsplit conditions of the if/for edges that dominate a location
+// (Truth tells which edge was taken).
+func (fl *Flow) CondsAt(l Loc) []Fact {
+	var out []Fact
+	for _, bi := range fl.rpo {
+		c := fl.CondOf(bi)
+		if c == nil {
+			continue
+		}
+		for si := 0; si < 2; si++ {
+			if fl.edgeDominates(bi, si, l.B) {
+				out = append(out, Fact{Expr: c, Truth: si == 0, Edge: Edge{bi, si}})
+			}
+		}
+	}
+	return out
+}
+
 // ErrCheckAfter finds, for a call whose error result is bound to errObj, the conditional
 // edges taken when the error is non-nil ("failure edges"). It scans forward from the call.
 func (fl *Flow) FailureEdges(errObj types.Object) map[Edge]bool {
